@@ -347,6 +347,12 @@ def check_block_case(case):
 def check_tx_case(case):
     chain = case['chain']
     t = W.tx_from_json(case['tx'])
+    if case.get('pad_to'):          # stripped size brought to exactly pad_to bytes by growing the first output's script
+        v, sc = t['vout'][0]
+        t['vout'][0] = (v, b'')
+        room = case['pad_to'] - len(W.enc_tx(t, False)) - 4       # script-length varint grows from 1 to 5 bytes
+        t['vout'][0] = (v, b'\x61' * room)
+        assert len(W.enc_tx(t, False)) == case['pad_to']
     exp, why = tx_ok(t, RC.CHAINS[chain]['max_money'])
     libx.select(chain)
     try:
@@ -406,7 +412,25 @@ def check_constructed_case(case):
     return {'nt': True, 'evals': 2, 'cls': ['constructed:' + why, 'mut:' + name]}
 
 
+def check_clock_case(case):
+    """without an explicit cur_time the header check uses the system clock: a timestamp three hours ahead is refused and
+    one hour ahead accepted (one-hour margins on either side of the 2 h rule, so the wall clock cannot make this flaky)"""
+    import time
+    from bitcoin.core import CheckBlockHeader, CBlockHeader
+    off = case['offset']
+    assert abs(off - 7200) >= 3000
+    exp = off < 7200
+    h = CBlockHeader(1, bytes(32), bytes(32), int(time.time()) + off, 0x207fffff, 0)
+    r = libx.call('CheckBlockHeader-default-clock', CheckBlockHeader, h, fCheckPoW=False, allowed=(ValidationError,))
+    if (r[0] == 'ok') != exp:
+        raise Violation('header/default-clock-%s' % ('accepts' if r[0] == 'ok' else 'rejects'),
+                        'CheckBlockHeader(nTime = now %+d s) without cur_time: %s' % (off, r[0]))
+    return {'nt': True, 'evals': 1, 'cls': ['default-clock:' + ('ok' if exp else 'future')]}
+
+
 def check_case(case):
+    if case['kind'] == 'clock':
+        return check_clock_case(case)
     if case['kind'] == 'tx':
         return check_tx_case(case)
     if case['kind'] == 'constructed':
@@ -489,6 +513,21 @@ def t_big(ctx):
     names = sorted(BIG) if not ctx.quick else ['stripped-size-1000000', 'stripped-size-1000001', 'weight-4000000', 'weight-4000001']
     for name in ctx.my(names):
         ctx.run({'kind': 'block', 'base': bases[0], 'mutation': name})
+    # the transaction-level size rule counts the WITNESS-STRIPPED bytes: 999,999 / 1,000,000 accepted, 1,000,001 refused,
+    # whatever witness data rides along
+    k = 0
+    for target in (999999, 1000000, 1000001):
+        for wit in (None, [['aa' * 200]], [['bb' * 70000]]):
+            for mutable in (False, True):
+                k += 1
+                if k % ctx.nshards == ctx.shard:
+                    ctx.run({'kind': 'tx', 'chain': 'mainnet', 'mutable': mutable, 'pad_to': target,
+                             'tx': {'version': 1, 'vin': [['08' * 32, 0, '', 0]], 'vout': [[1, '']], 'wit': wit, 'locktime': 0}})
+    if ctx.shard == 0:
+        for off in (-10 ** 6, 0, 3600, 4200, 10800, 14400, 10 ** 6):
+            ctx.run({'kind': 'clock', 'offset': off})
+    if ctx.shard == 0:
+        ctx.exhaustive.append('CheckTransaction at stripped sizes 999,999 / 1,000,000 / 1,000,001 x {no, small, 70 kB} witness x {immutable, mutable}')
 
 
 @st.composite
